@@ -211,7 +211,71 @@ def check_config(rep, prog):
         if not (isinstance(cl, tuple) and cl[0] == "symop" and cl[1] == "iclamp" and cl[3] == (0, 255)):
             return False
         return S.to_poly(cl[2]) == {("c%d" % i,): Fraction(1), ("d%d" % i,): Fraction(1)}
-    req(len(cs) == 3 and all(is_sat(v, i) for i, v in enumerate(cs)), "K4", "u8-add", p, "Color<u8> + diff: channel = clamp(i32(c) + d, 0, 255) as u8 (saturates, never wraps)", cs)
+    ok4 = len(cs) == 3 and all(is_sat(v, i) for i, v in enumerate(cs))
+    if not ok4 and len(cs) == 3:
+        # another formula: refuted by a channel / difference pair on which it is not clamp(c + d, 0, 255), or left undecided
+        def ev(v, pt):
+            if isinstance(v, bool):
+                return int(v)
+            if isinstance(v, int):
+                return v
+            if isinstance(v, tuple) and v[0] == "sym":
+                return pt[v[1]]
+            if isinstance(v, tuple) and v[0] == "symop":
+                op = v[1]
+                a_ = ev(v[2], pt)
+                if op == "iclamp":
+                    return None if a_ is None else min(max(a_, v[3][0]), v[3][1])
+                if op.startswith("cast:"):
+                    if a_ is None:
+                        return None
+                    bits = {"u8": 8, "u16": 16, "u32": 32, "i32": 32, "i64": 64, "u64": 64, "usize": 64}.get(op[5:])
+                    if bits is None:
+                        raise ValueError(op)
+                    r_ = a_ & ((1 << bits) - 1)
+                    return r_ - (1 << bits) if op[5:].startswith("i") and r_ >> (bits - 1) else r_
+                if op.startswith("try_from:"):
+                    lo_, hi_ = {"u8": (0, 255), "i8": (-128, 127), "u16": (0, 65535), "u32": (0, 2 ** 32 - 1)}.get(op[9:], (None, None))
+                    if lo_ is None:
+                        raise ValueError(op)
+                    return a_ if (a_ is not None and lo_ <= a_ <= hi_) else None
+                b_ = ev(v[3], pt) if len(v) > 3 and v[3] is not None else None
+                if op == "unwrap_or":
+                    return a_ if a_ is not None else b_
+                if a_ is None or b_ is None:
+                    return None
+                I32 = (-2 ** 31, 2 ** 31 - 1)
+                if op == "Add":
+                    return a_ + b_
+                if op == "Sub":
+                    return a_ - b_
+                if op in ("imax", "imin"):
+                    return max(a_, b_) if op == "imax" else min(a_, b_)
+                if op == "saturating_add":
+                    return min(max(a_ + b_, I32[0]), I32[1])
+                if op == "saturating_sub":
+                    return min(max(a_ - b_, I32[0]), I32[1])
+                if op == "wrapping_add":
+                    return ((a_ + b_ + 2 ** 31) % 2 ** 32) - 2 ** 31
+            raise ValueError(str(v)[:40])
+        wit = None
+        try:
+            for c_ in (0, 10, 200, 255):
+                for d_ in (-300, -20, 0, 20, 300, 2 ** 31 - 1, -2 ** 31):
+                    pt = {"c0": c_, "c1": c_, "c2": c_, "d0": d_, "d1": d_, "d2": d_}
+                    for i_, v_ in enumerate(cs):
+                        got_ = ev(v_, pt)
+                        want_ = min(max(c_ + d_, 0), 255)
+                        if got_ != want_ and wit is None:
+                            wit = (c_, d_, got_, want_)
+        except ValueError as e:
+            raise common.Infra("C16.K4: Color<u8> + diff is computed by a formula the rule cannot evaluate (%s); rule needs re-confirmation" % e)
+        if wit is None:
+            raise common.Infra("C16.K4: Color<u8> + diff is not written as clamp(i32(c) + d, 0, 255) as u8 and no channel / difference pair refutes it; rule needs re-confirmation")
+        rep.inst("C16.K4", "Color<u8> + diff: another formula, refuted by channel %d + difference %d -> %s (saturation gives %d)" % wit, config=cfg)
+        rep.violate("C16.K4", "K4|u8-add", prog.body(p).where(), "Color<u8> + diff does not saturate: channel %d + difference %d gives %s, clamp(c + d, 0, 255) is %d" % wit, config=cfg)
+    else:
+        req(ok4, "K4", "u8-add", p, "Color<u8> + diff: channel = clamp(i32(c) + d, 0, 255) as u8 (saturates, never wraps)", cs)
     # ---- K5 accessors
     for space, names in (("Rgb", "rgb"), ("Rgba", "rgba"), ("Hsl", "hsl"), ("Hsla", "hsla")):
         col = color(["c%d" % i for i in range(len(names))])
